@@ -100,3 +100,11 @@ CHECKS["C13"] = (
     "Trusted: the wrapper identifies (block, factor) by the (pairwise distinct) matrix size, not by call order; refresh steps computed by the harness from the documented schedule.",
     "DESIGN.md 3 C13, 2 E6",
 )
+
+CHECKS["C09"] = (
+    "fault_enumeration",
+    "runtime monitoring: every stop step of every generated run is a crash point: save -> torch.save/load -> fresh optimizer -> load -> continue, compared bit-for-bit (SHA-256 of raw bytes) with the uninterrupted run; negative loads enumerated per flat key and per sub-tree",
+    "96 (quick) / 1500 (thorough) generated runs (Shampoo/SOAP, all grafting types, momentum, filtering, 1-3 param groups, blocked parameters, blocks without Kronecker factors, absent gradients, scheduler edits), T in 4..12; the crash-point space of each run (k = 0..T) is enumerated completely (~850 resumes quick). After each resumed step every parameter and every tensor found by an independent traversal of optimizer.state must be bit-identical to the uninterrupted run; per parameter the number of flat keys must equal the number of reachable tensors (uniqueness / completeness). Negative loads: every single flat key and every sub-tree (block / module / attribute) deleted in turn, an unknown parameter key, an extra and a renamed param group - each must raise (~5k defective loads quick).",
+    "Trusted: torch.save/torch.load; the harness's traversal of dict/tuple/OptimizerModule graphs. torch.distributed.checkpoint resharding is not exercised.",
+    "DESIGN.md 3 C09",
+)
